@@ -50,8 +50,32 @@ MISSED = {
  'C09/r4-change2': 'the interrupted run of the real-process-death check runs under another PYTHONHASHSEED than the completing run',
  'C13/r4-change1': 'two seeded client streams of ONE dataset object advanced in turn (shuffled_restart)',
  'C13/r4-change2': 'the caller trims and reverses the returned cohort list in place after every sample',
+ 'C05/r4-change1': 'evaluated batches must be byte-identical afterwards (caught as it stood through the debug-backend evaluator cases)',
+ 'C10/r4-change1': 'the duplicate call of an aggregator passes the same clients as a one-pass generator instead of a list',
+ 'C10/r4-change2': 'a quarter of the histories leave a backend context by an exception and run another algorithm before repeating a round (C02 caught the change as it stood)',
+ 'C11/r4-change1': 'on-grid vectors whose normalised positions are exact in float32 must pass through for EVERY key; replay with a key whose uniform draw is exactly 0.0 at a mid-level coordinate',
+ 'C11/r4-change2': 'new check binary_low_precision_inputs: bfloat16 / float16 vectors, pooled binomial test of the round-up probability',
+ 'C12/r4-change1': 'FedProx relations also see rounds without any example',
+ 'C12/r4-change2': 'FedProx(0) and MimeLite relations also with a loss that uses its key',
+ 'C16/r4-change1': 'after every add_many a reader on its own connection must see the batch while the builder is still open',
+ 'C17/r4-change1': 'every state of an agnostic history keeps its own window (re-read at the end) and a round applied to an earlier state slides that state\'s window',
+ 'C17/r4-change2': 'HypCluster histories also with a regularizer that differs between clusters (average loss = mean loss + regularizer decides the assignment)',
+ 'C19/r4-change1': 'disk-full fault at the raw file level: a short write without an exception, later writes fail with ENOSPC; open() emulated with or without a buffered writer',
+ 'C18/r4-change2': 'parameter trees may contain empty tuple nodes (and one-element tuple nodes) next to array leaves',
  'C18/r3-change1': 'the 7- and 8-factor (length, block) pairs, left out on compile cost, are executed op by op under jax.disable_jit()',
 }
+# Filed changes that the checks do not detect ON PURPOSE: the input they need lies
+# outside the documented domain of the property, so a check that flagged them
+# would also flag code in which the property holds.
+NOT_CLAIMED = {
+ 'C06/r4-change2': 'needs a per-example loss of shape [n, 1]; fedjax.grad documents the per-example loss as "a vector of loss values for each example in the batch", and a masked sum that broadcasts instead of flattening is correct for every vector-shaped loss',
+}
+for k, why in NOT_CLAIMED.items():
+  p = os.path.join(ROOT, 'seeded', k, 'meta.json')
+  if os.path.exists(p):
+    d = json.load(open(p))
+    d['not_claimed'] = why
+    json.dump(d, open(p, 'w'), indent=1)
 for k, why in MISSED.items():
   p = os.path.join(ROOT, 'seeded', k, 'meta.json')
   if not os.path.exists(p):
